@@ -69,7 +69,7 @@ def _flatten(scs):
 
 
 def _monitor(ctx, scs, cfg):
-    """Monitor run: never blocks; returns {scenario index: [(event, kind)]} for every event breaking a C37 clause."""
+    """Monitor run: total, never blocks; returns {scenario index: [(event, clause)]} for every event breaking a C37 clause."""
     ev, owner = _flatten(scs)
     body = "\n".join(json.dumps(e, separators=(",", ":"), sort_keys=True) for e in ev) + "\n"
     r = ctx.tlc("TraceTxPoolSrv", cfg, workers=1, timeout=1500, deadlock=False, dfs=True, files={"trace.ndjson": body}, quiet=True)
@@ -78,10 +78,10 @@ def _monitor(ctx, scs, cfg):
     ctx.cov["states"] += r.distinct
     bad = {}
     for ln in r.lines:
-        for tag in ("MONFAIL", "CAPOVER"):
-            if ln.startswith('<<"%s", ' % tag):
-                idx = int(ln.split(",")[1])
-                bad.setdefault(owner[idx - 1], []).append((ev[idx - 1], tag))
+        if ln.startswith('<<"MONFAIL", '):      # <<"MONFAIL", line, "op", "clause">>
+            f = [x.strip().strip('">') for x in ln[2:].split(",")]
+            idx, clause = int(f[1]), f[3]
+            bad.setdefault(owner[idx - 1], []).append((ev[idx - 1], clause))
     return bad
 
 
@@ -130,18 +130,24 @@ def _server(ctx, b, scs, args, cfg, what, expect_over=False):
             done[bad["id"] - 1] = again
         todo = todo[k + 1:]
     mon = _monitor(ctx, done, cfg + "_mon.cfg")
-    over_seen = 0
+    over_seen = over_any = 0
     for k, lst in sorted(mon.items()):
         sc = done[k]
-        e, tag = lst[0]
         stimuli = [{x: st[x] for x in st if x != "obs"} for st in sc["steps"]]
-        if tag == "CAPOVER" and e["op"] == "rsp" and not any(t == "MONFAIL" for _, t in lst):
+        other = [(e, c) for e, c in lst if c != "capacity"]
+        e, clause = lst[0]
+        if any(c == "capacity" for _, c in lst):
+            over_any += 1
+        if not other and e["op"] == "rsp":
+            # the only clause broken in this scenario is the capacity bound, first at the insertion after verification
             over_seen += 1
             ctx.violation(CAPKEY, {"pool_count_minus_fillers": e["obs"]["n"], "model_CAP": 1, "real_MAX_CAPACITY": 100140,
                                    "event": {x: e[x] for x in e if x != "obs"}, "stimuli": stimuli},
                           replay={"kind": "srv", "args": args, "steps": stimuli})
         else:
-            ctx.violation("txpool-srv:%s:%s" % (tag.lower(), e["op"]), {"event": e, "stimuli": stimuli},
+            e, clause = other[0] if other else lst[0]
+            ctx.violation("txpool-srv:%s:%s" % (clause, e["op"]),
+                          {"clause": clause, "event": e, "all_broken_clauses": sorted(set(c for _, c in lst)), "stimuli": stimuli},
                           replay={"kind": "srv", "args": args, "steps": stimuli})
     for sc, hw in drift:
         if (sc["id"] - 1) not in mon:
@@ -151,7 +157,7 @@ def _server(ctx, b, scs, args, cfg, what, expect_over=False):
     if validated + len(drift) < len(done):
         ctx.note("%s: %d scenarios were checked by the monitor only (strict validation stopped after %d divergences)" % (what, len(done) - validated - len(drift), len(drift)))
     ctx.sample({what: done[len(done) // 2]["steps"][-1]})
-    if expect_over and over_seen == 0:
+    if expect_over and over_seen == 0 and over_any == 0 and not ctx.violations:
         if drift and not mon:
             ctx.note("%s: the model (capacity tested at admission only) predicts an overshoot, the real server stayed within its capacity "
                      "and left the model exactly there (DRIFT permitted by C37)" % what)
